@@ -388,6 +388,16 @@ func suiteReqPath(e *vh.Env) {
 			if rng.Chance(40) {
 				hdr = append(hdr, [2]string{"User-Agent", "verif-client/1.0"})
 			}
+			if rng.Chance(25) {
+				// end-to-end fields whose names merely resemble hop-by-hop ones
+				for k := 1 + rng.Intn(2); k > 0; k-- {
+					lk := [][2]string{{"Proxy-Client-Ip", "203.0.113.7"}, {"Upgrade-Insecure-Requests", "1"}, {"Keep-Alive-Hint", "x"}, {"Te-Level", "2"},
+						{"Trailer-Note", "n"}, {"Connection-Id", "c-17"}, {"Transfer-Encoding-Hint", "none"}, {"X-Proxy-Authorization", "y"}}[rng.Intn(8)]
+					if len(valuesOf(hdr, lk[0])) == 0 {
+						hdr = append(hdr, lk)
+					}
+				}
+			}
 			if rng.Chance(30) {
 				// a request that already passed a load balancer: end-to-end fields that proxy libraries like to rewrite
 				for k := 1 + rng.Intn(3); k > 0; k-- {
